@@ -248,20 +248,20 @@ func init() {
 			for _, b := range fn.Blocks {
 				for si := range b.Succs {
 					if li, ok := e.EdgeLit(b, si); ok && refused.F(li) {
-						r := (&Walk{Fn: fn, Barrier: AnyOf(IsInstr(f.los), IsInstr(f.cas))}).FromEdge(b, si)
+						// an accounted give-up (counted) also ends the attempt
+						var giveUps []ssa.Instruction
+						for _, ci := range e.Calls(fn, "invoke:prometheus.Counter.Inc") {
+							if a0 := e.Arg(ci, 0); a0 == "recv.metrics.aggrGroupCreationGivenUp" || a0 == "recv.metrics.aggrGroupLimitReached" {
+								giveUps = append(giveUps, ci)
+							}
+						}
+						r := (&Walk{Fn: fn, Barrier: AnyOf(IsInstr(f.los), IsInstr(f.cas), IsInstr(giveUps...))}).FromEdge(b, si)
 						for _, ret := range r.Returns() {
-							okGiveUp := false
-							for _, ci := range e.Calls(fn, "invoke:prometheus.Counter.Inc") {
-								if e.Arg(ci, 0) == "recv.metrics.aggrGroupCreationGivenUp" && InstrDominates(ci, ret) {
-									okGiveUp = true
-								}
-							}
-							for _, ci := range e.Calls(fn, "invoke:prometheus.Counter.Inc") {
-								if e.Arg(ci, 0) == "recv.metrics.aggrGroupLimitReached" && InstrDominates(ci, ret) {
-									okGiveUp = true
-								}
-							}
-							o.Check(okGiveUp, "refused-return", "after a group refused the alert (destroyed) groupAlert can return without retrying on a new group and without accounting for it", ret)
+							o.Fail("refused-return", "after a group refused the alert (destroyed) groupAlert can return without retrying on a new group and without accounting for it", ret)
+						}
+						if len(r.Returns()) == 0 {
+							o.Checks++
+							o.Passed++
 						}
 					}
 				}
